@@ -137,12 +137,15 @@ type Rig struct {
 	P      *parser.Parser
 }
 
-func New(l Layout) (*Rig, error) {
+func New(l Layout) (*Rig, error) { return NewWithParser(l, parser.New()) }
+
+// NewWithParser builds a rig (a new router) around an existing parser.
+func NewWithParser(l Layout, p *parser.Parser) (*Rig, error) {
 	rt, err := router.NewRouter(l.Namespace())
 	if err != nil {
 		return nil, fmt.Errorf("router for %s: %v", l.Name(), err)
 	}
-	r := &Rig{L: l, Router: rt, Seq: sequence.NewSequenceManager(), P: parser.New()}
+	r := &Rig{L: l, Router: rt, Seq: sequence.NewSequenceManager(), P: p}
 	var ok bool
 	if r.Rule, ok = rt.GetShardRule(LogicDB, "t"); !ok {
 		return nil, fmt.Errorf("no rule for t")
